@@ -432,3 +432,51 @@ func c06NumberIs(n json.Number, want uint64) bool {
 	}
 	return v == float64(want)
 }
+
+// c06SerialisationKind says in which way data is NOT the canonical JWS compact serialisation ("" = it is): exactly three
+// segments separated by '.', each equal to the unpadded base64url encoding of its own decoding, the first decoding to exactly
+// one JSON object. Anything else (JSON serialisation, CR/LF/space/tab inside or around segments, padding, the standard
+// alphabet, non-zero trailing bits, octets around the header object) is a second way to write down the same signed content,
+// i.e. the same signature under another transaction reference.
+func c06SerialisationKind(data []byte) string {
+	if t := bytes.TrimSpace(data); len(t) > 0 && t[0] == '{' {
+		return "json-serialisation"
+	}
+	segs := strings.Split(string(data), ".")
+	if len(segs) != 3 {
+		return "segment-count"
+	}
+	for i, seg := range segs {
+		switch {
+		case strings.ContainsAny(seg, "\r\n"):
+			return "line-break"
+		case strings.ContainsAny(seg, " \t\v\f"):
+			return "white-space"
+		case strings.Contains(seg, "="):
+			return "padding"
+		case strings.ContainsAny(seg, "+/"):
+			return "standard-alphabet"
+		}
+		dec, err := base64.RawURLEncoding.DecodeString(seg)
+		if err != nil {
+			return "not-base64url"
+		}
+		if base64.RawURLEncoding.EncodeToString(dec) != seg {
+			return "trailing-bits"
+		}
+		if i == 0 {
+			if len(bytes.TrimSpace(dec)) != len(dec) {
+				return "header-white-space"
+			}
+			d := json.NewDecoder(bytes.NewReader(dec))
+			var v map[string]any
+			if err := d.Decode(&v); err != nil {
+				return "header-not-an-object"
+			}
+			if int(d.InputOffset()) != len(dec) {
+				return "header-trailing-octets"
+			}
+		}
+	}
+	return ""
+}
